@@ -4,6 +4,7 @@
 //@@ depends partitions
 //@@ fnprops C04 lemma_done_stable canary_morphism_contract lemma_track_step lemma_img_rng lemma_conn_cong lemma_conn_homog lemma_conn_base lemma_pop lemma_skip lemma_unite_step lemma_queue_push lemma_ci_pop lemma_good_images lemma_ci_push lemma_ci_none lemma_fold_result lemma_walk_rng lemma_img_involution lemma_pull_back lemma_minimal_iff_only_trivial canary_is_minimal_contract canary_fold_contract canary_connected_is_satisfiable
 //@@ fnprops C01 canary_from_str_contract
+//@@ fnprops C02 lemma_iter_ij_range lemma_step_ij_injective lemma_iter_ij_cancel lemma_r_bound canary_default_r_contract
 //@@ fnprops C05 canary_cover_contract lemma_fibres lemma_sheet lemma_compose lemma_bop lemma_xor1 lemma_xor1_inj
 #![feature(panic_internals)]
 #![feature(sized_hierarchy)]
@@ -2906,6 +2907,137 @@ pub fn oriented_cover<T: DSet>(ds: &T) -> (res: PartialDSym)
 //@ end
 
 // ---------------------------------------------------------------------------------------------------------
+// C02: the default `DSet::r` (used by PartialDSet and SimpleDSet, which do not override it): "r(i,j,d) is the length of the orbit of d
+// under the product of operations i and j", for every type that meets the DSet interface contract
+// ---------------------------------------------------------------------------------------------------------
+// one step of the product: operation i, then operation j
+pub open spec fn step_ij<S: DSet>(ds: &S, i: int, j: int, x: Option<usize>) -> Option<usize> {
+    match x { Some(e) => match ds.sop(i, e as int) { Some(ei) => ds.sop(j, ei as int), None => None }, None => None }
+}
+pub open spec fn iter_ij<S: DSet>(ds: &S, i: int, j: int, d: usize, k: nat) -> Option<usize>
+    decreases k
+{
+    if k == 0 { Some(d) } else { step_ij(ds, i, j, iter_ij(ds, i, j, d, (k - 1) as nat)) }
+}
+// R5: `self.walk(e, [i, j])` is `[i, j].into_iter().fold(Some(e), |d, i| d.and_then(|d| self.op(i, d)))`: by its std semantics
+#[verifier::external_body]
+fn __walk2<S: DSet>(this: &S, e: usize, i: usize, j: usize) -> (r: Option<usize>)
+    requires this.wf()
+    ensures r == step_ij(this, i as int, j as int, Some(e))
+{ unimplemented!() }
+
+proof fn lemma_iter_ij_range<S: DSet>(ds: &S, i: int, j: int, d: usize, k: nat)
+    requires ds.wf(), 1 <= d <= ds.ssize(), iter_ij(ds, i, j, d, k).is_some()
+    ensures 1 <= iter_ij(ds, i, j, d, k).unwrap() <= ds.ssize()
+{
+    ds.lemma_wf();
+    if k > 0 {
+        let x = iter_ij(ds, i, j, d, (k - 1) as nat);
+        assert(ds.sop(j, ds.sop(i, x.unwrap() as int).unwrap() as int).is_some());
+    }
+}
+
+// the step is injective where it is defined (both operations are involutions)
+proof fn lemma_step_ij_injective<S: DSet>(ds: &S, i: int, j: int, x: usize, y: usize)
+    requires ds.wf(), step_ij(ds, i, j, Some(x)).is_some(), step_ij(ds, i, j, Some(x)) == step_ij(ds, i, j, Some(y))
+    ensures x == y
+{
+    ds.lemma_wf();
+    let xi = ds.sop(i, x as int).unwrap(); let yi = ds.sop(i, y as int).unwrap();
+    assert(ds.sop(j, xi as int).is_some() && ds.sop(j, yi as int).is_some());
+    assert(ds.sop(j, ds.sop(j, xi as int).unwrap() as int) == Some(xi));
+    assert(ds.sop(j, ds.sop(j, yi as int).unwrap() as int) == Some(yi));
+    assert(ds.sop(i, xi as int) == Some(x)); assert(ds.sop(i, yi as int) == Some(y));
+}
+
+proof fn lemma_iter_ij_cancel<S: DSet>(ds: &S, i: int, j: int, d: usize, a: nat, b: nat)
+    requires ds.wf(), a <= b, iter_ij(ds, i, j, d, b).is_some(), iter_ij(ds, i, j, d, a) == iter_ij(ds, i, j, d, b)
+    ensures iter_ij(ds, i, j, d, (b - a) as nat) == Some(d)
+    decreases a
+{
+    if a > 0 {
+        let xa = iter_ij(ds, i, j, d, (a - 1) as nat); let xb = iter_ij(ds, i, j, d, (b - 1) as nat);
+        assert(xa.is_some() && xb.is_some());
+        lemma_step_ij_injective(ds, i, j, xa.unwrap(), xb.unwrap());
+        lemma_iter_ij_cancel(ds, i, j, d, (a - 1) as nat, (b - 1) as nat);
+    }
+}
+
+// as long as the walk has not returned to d it visits pairwise different chambers: at most size - 1 steps
+proof fn lemma_r_bound<S: DSet>(ds: &S, i: int, j: int, d: usize, n: nat)
+    requires ds.wf(),
+        forall|k: nat| 0 < k <= n ==> #[trigger] iter_ij(ds, i, j, d, k).is_some() && iter_ij(ds, i, j, d, k) != Some(d),
+    ensures n + 1 <= ds.ssize()
+{
+    ds.lemma_wf();
+    if n == 0 { return; }
+    // one step is defined, so d is a chamber
+    assert(iter_ij(ds, i, j, d, 1).is_some());
+    assert(iter_ij(ds, i, j, d, 0) == Some(d));
+    assert(ds.sop(i, d as int).is_some());
+    let s = Seq::new(n + 1, |k: int| iter_ij(ds, i, j, d, k as nat).unwrap() as int);
+    assert forall|k: int| 0 <= k < s.len() implies 1 <= #[trigger] s[k] <= ds.ssize() by {
+        if k > 0 { assert(iter_ij(ds, i, j, d, k as nat).is_some()); }
+        lemma_iter_ij_range(ds, i, j, d, k as nat);
+    }
+    assert forall|a: int, b: int| 0 <= a < b < s.len() implies s[a] != s[b] by {
+        if s[a] == s[b] {
+            assert(iter_ij(ds, i, j, d, b as nat).is_some());
+            if a > 0 { assert(iter_ij(ds, i, j, d, a as nat).is_some()); }
+            lemma_iter_ij_cancel(ds, i, j, d, a as nat, b as nat);
+            assert(iter_ij(ds, i, j, d, (b - a) as nat) != Some(d));
+        }
+    }
+    lemma_pigeon(s, ds.ssize());
+}
+
+//@ begin src/dsets.rs :: trait DSet: Sized :: fn r | props=C02
+//@ rw R11 /fn r\(&self, i: usize, j: usize, d: usize\)/pub fn r<S: DSet>(this: &S, i: usize, j: usize, d: usize)/
+//@ rw R11 /\bself\b/this/
+//@ rw R16 /-> Option<usize>/-> (res: Option<usize>)/
+//@ rw R12 /let mut r = 0;/let mut r: usize = 0;/
+//@ rw R5 /this\.walk\(e, \[i, j\]\)/__walk2(this, e, i, j)/
+#[verifier::exec_allows_no_decreases_clause]
+    pub fn r<S: DSet>(this: &S, i: usize, j: usize, d: usize) -> (res: Option<usize>)
+    requires this.wf()
+    ensures
+        // out-of-range arguments give None rather than a panic
+        (i > this.sdim() || j > this.sdim() || d < 1 || d > this.ssize()) ==> res.is_none(),
+        // Some(r): r is the least positive number of steps of (operation i, then operation j) that leads from d back to d
+        res.is_some() ==> res.unwrap() >= 1 && iter_ij(this, i as int, j as int, d, res.unwrap() as nat) == Some(d)
+            && forall|k: nat| 0 < k < res.unwrap() ==> #[trigger] iter_ij(this, i as int, j as int, d, k).is_some() && iter_ij(this, i as int, j as int, d, k) != Some(d),
+        // None for arguments in range: the walk leaves the defined part of the operations
+        res.is_none() && i <= this.sdim() && j <= this.sdim() && 1 <= d <= this.ssize() ==> exists|k: nat| #[trigger] iter_ij(this, i as int, j as int, d, k).is_none(),
+    {
+        proof { this.lemma_wf(); }
+        if i > this.dim() || j > this.dim() || d < 1 || d > this.size() {
+            None
+        } else {
+            let mut e = d;
+            let mut r: usize = 0;
+
+            loop
+                invariant this.wf(),
+                    iter_ij(this, i as int, j as int, d, r as nat) == Some(e),
+                    forall|k: nat| 0 < k <= r ==> #[trigger] iter_ij(this, i as int, j as int, d, k).is_some() && iter_ij(this, i as int, j as int, d, k) != Some(d),
+            {
+                if let Some(c) = __walk2(this, e, i, j) {
+                    proof { this.lemma_wf(); assert(iter_ij(this, i as int, j as int, d, (r + 1) as nat) == Some(c)); lemma_r_bound(this, i as int, j as int, d, r as nat); }
+                    e = c;
+                    r += 1;
+                    if e == d {
+                        return Some(r);
+                    }
+                } else {
+                    proof { assert(iter_ij(this, i as int, j as int, d, (r + 1) as nat).is_none()); }
+                    return None;
+                }
+            }
+        }
+    }
+//@ end
+
+// ---------------------------------------------------------------------------------------------------------
 // C04: fold / is_minimal (congruence closure over the union-find).
 // Partition<usize> is imported from unit `partitions` (assumed HERE, proved THERE; clause lists compared mechanically).
 // ---------------------------------------------------------------------------------------------------------
@@ -3617,6 +3749,13 @@ fn canary_fold_contract<S: DSet>(ds: &S, p: &Partition)
     ensures false
 {
     let r = fold(ds, p, 1, 2);
+}
+
+fn canary_default_r_contract<S: DSet>(ds: &S)
+    requires ds.wf()
+    ensures false
+{
+    let x = r(ds, 0, 1, 1);
 }
 
 proof fn canary_partial_dset_invariant_is_satisfiable(ds: PartialDSet)
